@@ -2,6 +2,11 @@
 // that runs only while it holds the baton; at every scheduling point the explorer
 // chooses which thread continues. Staying on the running thread is the default
 // answer; switching away from a runnable thread costs one deviation (a preemption).
+//
+// Mutex, RWMutex, Once and sync/atomic operations of the instrumented package are modelled:
+// a thread waiting for a lock is not enabled (so the real Lock call never blocks), "no enabled
+// thread" is a deadlock, and every release/acquire pair is a happens-before edge recorded in
+// vector clocks. Two accesses conflict only if neither happens before the other.
 package sched
 
 import (
@@ -19,6 +24,8 @@ type Access struct {
 	Loc    string // Type.field or "var name" (stable across runs)
 	Write  bool
 	Seq    int
+	Atomic bool  // performed through sync/atomic
+	VC     []int // the thread's vector clock at the access
 }
 
 // Conflict is a pair of accesses to the same location from different threads, one a write.
@@ -42,6 +49,37 @@ type thread struct {
 	resume chan struct{}
 	done   bool
 	pan    interface{}
+	vc     []int
+	want   *want // the lock this thread is waiting for, if any
+}
+
+// want is a pending acquisition: the thread is enabled only when it can be granted.
+type want struct {
+	key  string
+	mode int // 0 exclusive, 1 shared, 2 once-completion
+}
+
+// syncObj models one Mutex / RWMutex / Once / atomic variable: who holds it and the vector
+// clocks released through it (the happens-before edges the Go memory model promises).
+type syncObj struct {
+	writer    int // thread holding it exclusively, -1 if none
+	readers   map[int]int
+	rel, rrel []int
+	once      int // 0 not started, 1 running, 2 done
+	onceOwner int
+}
+
+func join(a, b []int) []int {
+	out := append([]int{}, a...)
+	for len(out) < len(b) {
+		out = append(out, 0)
+	}
+	for i := range b {
+		if b[i] > out[i] {
+			out[i] = b[i]
+		}
+	}
+	return out
 }
 
 // Sched runs one execution.
@@ -57,6 +95,9 @@ type Sched struct {
 	// (reads of never-written locations commute with everything).
 	Relevant func(loc string) bool
 	active   bool
+	sync     map[string]*syncObj
+	SyncOps  int
+	Deadlock string
 }
 
 var current *Sched
@@ -66,6 +107,15 @@ func Hook(obj interface{}, loc string, write bool) {
 	s := current
 	if s == nil || !s.active {
 		return
+	}
+	op := ""
+	if strings.HasPrefix(loc, "sync:") {
+		rest := loc[len("sync:"):]
+		if i := strings.Index(rest, ":"); i >= 0 {
+			op, loc = rest[:i], rest[i+1:]
+		} else {
+			op, loc = rest, ""
+		}
 	}
 	key := loc
 	if obj != nil {
@@ -77,6 +127,10 @@ func Hook(obj interface{}, loc string, write bool) {
 			}
 			key = fmt.Sprintf("%x.%s", rv.Pointer(), field)
 		}
+	}
+	if op != "" {
+		s.syncOp(op, key, loc)
+		return
 	}
 	s.point(key, loc, write, true)
 }
@@ -90,10 +144,122 @@ func Point(label string) {
 	s.point("", label, false, false)
 }
 
+func (s *Sched) obj(key string) *syncObj {
+	o := s.sync[key]
+	if o == nil {
+		o = &syncObj{writer: -1, readers: map[int]int{}, onceOwner: -1}
+		s.sync[key] = o
+	}
+	return o
+}
+
+// yield is an unconditional scheduling point of the running thread.
+func (s *Sched) yield1() {
+	t := s.threads[s.cur]
+	s.Points++
+	s.yield <- t.id
+	<-t.resume
+}
+
+func (s *Sched) record(t *thread, key, loc string, write, atomic bool) {
+	s.Accesses = append(s.Accesses, Access{Thread: t.id, Key: key, Loc: loc, Write: write, Seq: len(s.Accesses), Atomic: atomic, VC: append([]int{}, t.vc...)})
+}
+
+// syncOp models a synchronisation operation. The hook runs immediately before the real
+// operation; acquisitions wait here (the thread is not enabled until the lock can be
+// granted), so the real call that follows never blocks.
+func (s *Sched) syncOp(op, key, loc string) {
+	t := s.threads[s.cur]
+	o := s.obj(key)
+	s.SyncOps++
+	switch op {
+	case "Lock", "RLock":
+		mode := 0
+		if op == "RLock" {
+			mode = 1
+		}
+		t.want = &want{key, mode}
+		s.yield1()
+		t.want = nil
+		if mode == 0 {
+			o.writer = t.id
+			t.vc = join(join(t.vc, o.rel), o.rrel)
+		} else {
+			o.readers[t.id]++
+			t.vc = join(t.vc, o.rel)
+		}
+	case "Unlock":
+		s.yield1()
+		o.writer = -1
+		o.rel = join(o.rel, t.vc)
+		t.vc[t.id]++
+	case "RUnlock":
+		s.yield1()
+		if o.readers[t.id] > 0 {
+			o.readers[t.id]--
+		}
+		o.rrel = join(o.rrel, t.vc)
+		t.vc[t.id]++
+	case "Once.Do":
+		s.yield1()
+		switch {
+		case o.once == 0:
+			o.once, o.onceOwner = 1, t.id
+		case o.once == 1 && o.onceOwner != t.id:
+			t.want = &want{key, 2}
+			s.yield1()
+			t.want = nil
+			t.vc = join(t.vc, o.rel)
+		case o.once == 2:
+			t.vc = join(t.vc, o.rel)
+		}
+	case "Once.Done":
+		if o.once == 1 && o.onceOwner == t.id {
+			o.once = 2
+			o.rel = join(o.rel, t.vc)
+			t.vc[t.id]++
+		}
+		s.yield1()
+	case "atomic.Load":
+		s.yield1()
+		t.vc = join(t.vc, o.rel)
+		s.record(t, key, loc, false, true)
+	case "atomic.Store":
+		s.yield1()
+		t.vc = join(t.vc, o.rel)
+		s.record(t, key, loc, true, true)
+		o.rel = join(o.rel, t.vc)
+		t.vc[t.id]++
+	}
+}
+
+// granted reports whether t's pending acquisition can proceed.
+func (s *Sched) granted(t *thread) bool {
+	if t.want == nil {
+		return true
+	}
+	o := s.obj(t.want.key)
+	switch t.want.mode {
+	case 0:
+		if o.writer >= 0 {
+			return false
+		}
+		for _, n := range o.readers {
+			if n > 0 {
+				return false
+			}
+		}
+		return true
+	case 1:
+		return o.writer < 0
+	}
+	return o.once == 2
+}
+
 func (s *Sched) point(key, loc string, write, record bool) {
 	t := s.threads[s.cur]
 	if record {
-		s.Accesses = append(s.Accesses, Access{Thread: t.id, Key: key, Loc: loc, Write: write, Seq: len(s.Accesses)})
+		s.record(t, key, loc, write, false)
 	}
 	if record && s.Relevant != nil && !s.Relevant(loc) {
 		return // no preemption opportunity here
@@ -106,9 +272,11 @@ func (s *Sched) point(key, loc string, write, record bool) {
 // Run executes bodies as cooperative threads under c's schedule choices and returns when
 // all have finished. A panic in a body is returned (first one).
 func Run(c *mc.Ctx, relevant func(string) bool, first int, bodies ...func()) (s *Sched, pan interface{}) {
-	s = &Sched{c: c, yield: make(chan int), Relevant: relevant}
+	s = &Sched{c: c, yield: make(chan int), Relevant: relevant, sync: map[string]*syncObj{}}
 	for i := range bodies {
-		s.threads = append(s.threads, &thread{id: i, resume: make(chan struct{})})
+		vc := make([]int, len(bodies))
+		vc[i] = 1
+		s.threads = append(s.threads, &thread{id: i, resume: make(chan struct{}), vc: vc})
 	}
 	current = s
 	s.active = true
@@ -149,10 +317,22 @@ func Run(c *mc.Ctx, relevant func(string) bool, first int, bodies ...func()) (s 
 			break
 		}
 		running := -1
-		if !s.threads[s.cur].done {
+		if !s.threads[s.cur].done && s.granted(s.threads[s.cur]) {
 			running = s.cur
 		}
-		s.cur = s.pick(running)
+		next := s.pick(running)
+		if next < 0 {
+			// every live thread waits for a lock another one holds; the parked goroutines are abandoned
+			var ws []string
+			for _, t := range s.threads {
+				if !t.done && t.want != nil {
+					ws = append(ws, fmt.Sprintf("T%d waits for %s", t.id, t.want.key))
+				}
+			}
+			s.Deadlock = strings.Join(ws, ", ")
+			return s, "deadlock: " + s.Deadlock
+		}
+		s.cur = next
 		s.threads[s.cur].resume <- struct{}{}
 	}
 	for _, t := range s.threads {
@@ -171,9 +351,12 @@ func (s *Sched) pick(running int) int {
 		enabled = append(enabled, running)
 	}
 	for _, t := range s.threads {
-		if !t.done && t.id != running {
+		if !t.done && t.id != running && s.granted(t) {
 			enabled = append(enabled, t.id)
 		}
+	}
+	if len(enabled) == 0 {
+		return -1
 	}
 	var k int
 	if len(enabled) == 1 {
@@ -198,7 +381,7 @@ func (s *Sched) Conflicts() []Conflict {
 		found := false
 		for i := 0; i < len(as) && !found; i++ {
 			for j := i + 1; j < len(as) && !found; j++ {
-				if as[i].Thread != as[j].Thread && (as[i].Write || as[j].Write) {
+				if as[i].Thread != as[j].Thread && (as[i].Write || as[j].Write) && !(as[i].Atomic && as[j].Atomic) && !ordered(as[i], as[j]) {
 					out = append(out, Conflict{Key: k, A: as[i], B: as[j]})
 					found = true
 				}
@@ -206,4 +389,13 @@ func (s *Sched) Conflicts() []Conflict {
 		}
 	}
 	return out
+}
+
+// ordered reports whether the earlier access a happens before the later access b through
+// the modelled synchronisation (a's epoch is known to b's thread).
+func ordered(a, b Access) bool {
+	if a.Thread >= len(a.VC) || a.Thread >= len(b.VC) {
+		return false
+	}
+	return a.VC[a.Thread] <= b.VC[a.Thread]
 }
